@@ -19,7 +19,7 @@ def sh(cmd, cwd=None, timeout=1800):
 
 def parse_run(run_txt):
     dest = "v3"
-    m = re.search(r"v3/(lint|util|lints/[a-z_]+|cmd/zlint)/[a-zA-Z0-9_]*_test\.go", run_txt)
+    m = re.search(r"v3/((?:[a-zA-Z0-9_\-]+/)*[a-zA-Z0-9_\-]+)/[a-zA-Z0-9_]*_test\.go", run_txt)
     if m:
         dest = "v3/" + m.group(1)
     cmd = None
